@@ -105,8 +105,11 @@ Lemma step_decreases s f ag s' ag' :
   step s f ag = (s', ag') -> (measure s' ag' < measure s (f :: ag))%nat.
 Proof.
   destruct f as [o| | | |]; cbn [step]; intros H.
-  - destruct o as [cb|full nl cb| | |r|]; cbn [do_op] in H.
-    + destruct (s_max s <=? len (s_queue s)).
+  - destruct o as [sn cb|full nl cb| | |r|]; cbn [do_op] in H.
+    + destruct sn; destruct (s_max s <=? len (s_queue s)).
+      * inversion H; subst. unfold measure, wst; cbn. fold (wops cb). lia.
+      * apply take_next_w in H. unfold measure, wst in *; cbn in *. rewrite wq_app in H. cbn in H.
+        fold (wops cb). lia.
       * inversion H; subst. unfold measure, wst; cbn. rewrite wag_app, wag_map_fop.
         fold (wops cb). lia.
       * apply take_next_w in H. unfold measure, wst in *; cbn in *. rewrite wq_app in H. cbn in H.
